@@ -20,6 +20,9 @@ RULES = {
     "C02.R6": lambda ctx: bldrules.prefix_source(ctx, "C02.R6"),
     "C02.R6b": lambda ctx: bldrules.cache_coherence(ctx, "C02.R6b"),
     "C02.R0": lambda ctx: __import__("rules.foundations", fromlist=["x"]).accessors(ctx, "C02.R0", None),
+    "C02.R9a": lambda ctx: __import__("rules.hdrrules", fromlist=["x"]).stream_expected(ctx, "C02.R9a") and None,
+    "C02.R9b": lambda ctx: __import__("rules.hdrrules", fromlist=["x"]).slice_expected(ctx, "C02.R9b") and None,
+    "C02.R9c": lambda ctx: __import__("rules.hdrrules", fromlist=["x"]).chunk_independence(ctx, "C02.R9c"),
     "C02.R8": lambda ctx: typesrules.sort_after_write(ctx, "C02.R8"),
     "C02.R8b": lambda ctx: typesrules.key_agreement(ctx, "C02.R8b"),
 }
